@@ -623,7 +623,8 @@ struct Sharded
     double deadline_s = 0;  // relative budget
     int max_restarts = 40;  // per worker
     std::string tmpdir = ".";
-    std::string id = "C00";
+    std::string id = "C00";   // used for temp file names
+    std::string prop;         // property id used in violation signatures (default: id)
     std::function<void(Ctx&)> walk;
     // called in the parent for a case whose worker died: build clause/signature
     // (default: "<id>:crash:<classes>")
@@ -650,6 +651,8 @@ struct Sharded
 
     Report run()
     {
+        if (prop.empty())
+            prop = id;
         Report total;
         double t0 = now_s();
         double deadline = deadline_s > 0 ? t0 + deadline_s : 0;
@@ -746,7 +749,7 @@ struct Sharded
             bool hang = WIFSIGNALED(st) && WTERMSIG(st) == SIGALRM;
             if (bad < 0)
             {
-                total.violation("harness", id + ":harness:worker-died-outside-case", "null",
+                total.violation("harness", prop + ":harness:worker-died-outside-case", "null",
                                 how + " | " + err, 0);
                 ws[w].finished = true;
                 continue;
@@ -777,7 +780,7 @@ struct Sharded
                     total.merge(single);
                 }
                 else
-                    total.violation("hang", id + ":hang:" + d.classes, d.witness,
+                    total.violation("hang", prop + ":hang:" + d.classes, d.witness,
                                     "case did not finish within " +
                                         std::to_string(case_timeout_s * 10) + " s",
                                     bad);
@@ -791,7 +794,7 @@ struct Sharded
                     clause = "sanitizer";
                 if (err.find("terminate called") != std::string::npos)
                     clause = "terminate";
-                total.violation(clause, id + ":" + clause + ":" + d.classes, d.witness,
+                total.violation(clause, prop + ":" + clause + ":" + d.classes, d.witness,
                                 how + " | " + err, bad);
             }
             total.count("worker_restarts");
